@@ -638,6 +638,7 @@ def C12(tier, seed):
         probe = _number([_conc([[{"op": "Set", "spec": CS[0]}], [{"op": "Set", "spec": CS[1]}]],
                                [{"t": 1, "st": "prep"}, {"t": 2, "st": "prep"}, {"t": 1, "st": "spec"},
                                 {"t": 2, "st": "spec"}, {"t": 1, "st": "gate"}, {"t": 2, "st": "gate"}], "probe")])
+        probe[0]["block_ms"] = 1000
         pf, ptf = os.path.join(wd, "probe.ndjson"), os.path.join(wd, "probe-trace.ndjson")
         open(pf, "w").write(json.dumps(probe[0]) + "\n")
         C.exec_flw(pf, ptf, sub=SUB)
@@ -646,7 +647,8 @@ def C12(tier, seed):
               + ("while the specification lock is held" if locked else "after the specification lock is released"))
         sfx = "L" if locked else ""
         _model_check(pid, wd, [("MCLogSpec.tla", "MCLogSpec_C12ideal.cfg", 4, 600)], st)
-        cex = _as_coded(pid, wd, "MCLogSpec.tla", "MCLogSpec_C12asis.cfg", st, workers=1)
+        # the model with the atomicity the unrepaired code has (gate written after the lock is released)
+        cex = [] if locked else _as_coded(pid, wd, "MCLogSpec.tla", "MCLogSpec_C12asis.cfg", st, workers=1)
         gens = [f"MCLogSpec_C12gen2{sfx}.cfg", (f"MCLogSpec_C12gen3{sfx}.cfg" if quick else f"MCLogSpec_C12gen3t{sfx}.cfg")]
         scens = []
         for g in gens:
